@@ -97,6 +97,9 @@ def cond_truth_of_call(p, callee, argpred=None):
     return out
 
 
+COUNTER_OK = {}      # kernel member name -> True once S12 has shown it equals the run queue's length
+
+
 def queue_empty_facts(p, K):
     """{'runq' | 'timerq' | 'atomic': (True = known empty | False = known non-empty, event index of the test)} on path p.
     Recognised tests: list_empty(q), messageq_empty(&atomic_runq), q.head == NULL, list_peek(q) == NULL."""
@@ -122,6 +125,23 @@ def queue_empty_facts(p, K):
             if a[0] == "call" and a[1] == "list_peek" and K.queue_arg(a[2][0]) in ("runq", "timerq"):
                 kk = [k for k, e in calls_on(p) if e.res == a]
                 facts[K.queue_arg(a[2][0])] = ((cc[1] == "eq") == bool(taken), kk[0] if kk else 0)
+    # (member == 0) for a kernel member that S12 has shown to be the run queue's length
+    for n_, (c, taken, inst) in enumerate(p.conds):
+        cc = strip_casts(c)
+        if cc[0] == "icmp" and cc[1] in ("eq", "ne", "ugt", "ule", "ult", "uge") and "runq" not in facts:
+            for a, b, sw in ((cc[2], cc[3], False), (cc[3], cc[2], True)):
+                a, b = strip_casts(a), strip_casts(b)
+                if b[0] == "c" and b[2] == 0 and a[0] == "ld" and K.member_of(a[1]) and COUNTER_OK.get(K.member_of(a[1])[0]):
+                    pred = cc[1]
+                    if sw:
+                        pred = {"ugt": "ult", "ult": "ugt", "ule": "uge", "uge": "ule"}.get(pred, pred)
+                    if pred in ("eq", "ule"):
+                        empty = bool(taken)
+                    elif pred in ("ne", "ugt"):
+                        empty = not taken
+                    else:
+                        continue
+                    facts["runq"] = (empty, p.cond_pos[n_] if n_ < len(p.cond_pos) else 0)
     return facts
 
 
@@ -312,4 +332,117 @@ def check_flag_tracks_runq(chk, m, K, mask):
                         verdict = False
     chk.expect("S11", "membership-bit obligations", n_sites, 3)
     _FLAG_VERDICT[key] = verdict
+    return verdict
+
+
+_COUNTER_VERDICT = {}
+
+
+def check_counter_tracks_runq(chk, m, K, member):
+    """S12: a member of the kernel object is used as "number of fibres on the run queue" (tested against 0 where the list API
+    would test emptiness).  Sound exactly if, on every loop-free segment of every function of fibre.c and for every outcome of
+    the list calls on it that the segment's own decisions allow, the net change of the counter equals the net change of
+    the run queue's length (+1 per list_insert, -1 per list_extract that returned a node, -1 per list_remove that
+    succeeded).  The outcomes the decisions leave open are enumerated (finitely many Boolean results).  -> True / False / None."""
+    key = (id(m), member)
+    if key in _COUNTER_VERDICT:
+        return _COUNTER_VERDICT[key]
+    cptr = K.kptr(member)
+    verdict = True
+    n = 0
+    for fn in m.defined_functions():
+        try:
+            segs = [(s, p) for s, p in paths.enumerate_segments(fn, m, call_effects=EFFECTS) if p.end != "unreachable"]
+        except AnalysisError:
+            continue
+        for s, p in segs:
+            ev = p.events
+            cstores = [e for e in ev if e.kind == "store" and e.ptr == cptr]
+            qcalls = [c for k, c in calls_on(p) if c.callee in ("list_insert", "list_extract", "list_remove", "list_push", "list_insert_sorted",
+                                                                 "list_iterator_remove", "list_iterator_insert") and c.args
+                      and (K.queue_arg(c.args[0]) == "runq")]
+            if not cstores and not qcalls:
+                continue
+            sid = "%s %s..%s [%s]" % (fn.name, s.lstrip("%"), p.end, "->".join(b.lstrip("%") for b in p.blocks[-2:]))
+            if any(c.callee not in ("list_insert", "list_extract", "list_remove") for c in qcalls):
+                chk.unknown("S12.counter-tracks-runq", sid, "a run-queue operation this rule has no model of", qcalls[0].inst.loc)
+                verdict = None
+                continue
+            # net change of the counter: last store must be (first load) + k
+            dc = 0
+            if cstores:
+                v = strip_casts(cstores[-1].val)
+                k_, base = 0, v
+                while base[0] == "b" and base[1] in ("add", "sub") and base[4][0] == "c":
+                    c_ = base[4][2]
+                    bits = base[2]
+                    if c_ >> (bits - 1):
+                        c_ -= 1 << bits
+                    k_ += c_ if base[1] == "add" else -c_
+                    base = strip_casts(base[3])
+                if not (base[0] == "ld" and base[1] == cptr):
+                    if fn.name in ("fibre_scheduler_init",) or v[0] == "c":
+                        continue
+                    chk.unknown("S12.counter-tracks-runq", sid, "the counter is stored a value that is not its old value plus a constant", cstores[-1].inst.loc)
+                    verdict = None
+                    continue
+                dc = k_
+            # the results the decisions leave open
+            free = []
+            for c in qcalls:
+                if c.callee in ("list_extract", "list_remove") and c.res not in free:
+                    free.append(c.res)
+            # other list_remove results mentioned by the decisions (the timer queue's) are free as well
+            for cd, t, i in p.conds:
+                for x in paths.subexprs(cd):
+                    if x[0] == "call" and x[1] in ("list_remove", "list_extract", "list_contains") and x not in free:
+                        free.append(x)
+            bad = None
+            undecided = False
+            for bits in range(1 << len(free)):
+                env = {x: (bits >> j) & 1 for j, x in enumerate(free)}
+                feasible = True
+                for cd, t, i in p.conds:
+                    if not any(x in env for x in paths.subexprs(cd)):
+                        continue
+                    cc = strip_casts(cd)
+                    if cc[0] == "icmp" and cc[1] in ("eq", "ne") and ("null",) in (strip_casts(cc[2]), strip_casts(cc[3])):
+                        other = strip_casts(cc[2]) if strip_casts(cc[3]) == ("null",) else strip_casts(cc[3])
+                        if other in env:
+                            isnull = not env[other]
+                            if ((cc[1] == "eq") == isnull) != bool(t):
+                                feasible = False
+                                break
+                            continue
+                    try:
+                        if not paths.cond_holds((cd, t, i), env):
+                            feasible = False
+                            break
+                    except paths.NoValue:
+                        undecided = True
+                if not feasible:
+                    continue
+                dq = 0
+                for c in qcalls:
+                    if c.callee == "list_insert":
+                        dq += 1
+                    elif env.get(c.res):
+                        dq -= 1
+                if dq != dc and bad is None:
+                    bad = (dq, {fmt(x)[:40]: v for x, v in env.items()})
+            n += 1
+            if bad is not None and undecided:
+                chk.unknown("S12.counter-tracks-runq", sid, "a decision on this segment mixes list results with other state", p.ret_inst.loc if p.ret_inst is not None else fn.loc)
+                verdict = None
+                continue
+            chk.ob("S12.counter-tracks-runq", sid, bad is None,
+                   "the counter changes by exactly the change of the run queue's length for every outcome of the list calls (%+d)" % dc if bad is None else
+                   "the counter changes by %+d where the run queue's length changes by %+d (outcomes: %s): from here on kernel.%s is not the "
+                   "number of runnable fibres, and `%s == 0` stops meaning 'run queue empty' - the scheduler sleeps with a fibre queued, "
+                   "or spins with none" % (dc, bad[0], ", ".join("%s=%d" % kv for kv in sorted(bad[1].items())), member, member),
+                   (cstores[-1].inst.loc if cstores else qcalls[0].inst.loc), fn.name)
+            if bad is not None and verdict is not None:
+                verdict = False
+    chk.expect("S12", "segments that change the run queue or its counter", n, 2)
+    _COUNTER_VERDICT[key] = verdict
     return verdict
